@@ -48,6 +48,10 @@ class Contract:
         self.hints = getattr(impl, "hints", None)
         self.self_classes = getattr(impl, "self_classes", None)
         self.pure = getattr(impl, "pure", False)
+        # __init__ of a base class: invariant clauses (labels "<Class>.<clause>") that talk about the complete object and
+        # are therefore neither obligated here nor assumed at the call sites of this constructor (the constructor of the
+        # concrete class is obligated to them)
+        self.inv_exempt = list(getattr(impl, "inv_exempt", []) or [])
 
     def clauses(self, which: str, s) -> List[Tuple[str, Any]]:
         fn = getattr(self, which)
